@@ -3,7 +3,8 @@ import numpy as np
 import nets
 
 PID = "C13"
-THEOREMS = ["path_bound", "trace_terminates", "trace_in_bounds", "err_walk_terminates", "rank_total"]
+THEOREMS = ["path_bound", "trace_terminates", "trace_in_bounds", "err_walk_terminates", "rank_total",
+            "eam_walk_terminates", "out_walk_terminates", "dmm_walk_terminates"]
 RULE = ("every public FlwdirRaster / Flwdir method and the module-level functions (from_array, from_dem, "
         "dem.fill_depressions / slope, gis_utils.spread2d, regions.*) with documented option values INCLUDING boundary "
         "values (max_depth = 0 and > 0, connectivity 4 / 8, outlets edge / min / user, scale factor 1, window 0, "
